@@ -76,8 +76,10 @@ def plan_C01(tier, seed):
 
 def plan_C02(tier, seed):
     return dict(level="exploration", rule=RULE_ARENA + "; C02 oracle: expected-bytes shadow of every live block compared after every call, closure call logs",
-                shards=arena_shards(seed, tier, ["contents", "allocator"], 80, 800),
-                require={"shadow.blocks_verified": 100000, "c02.closure_logs_checked": 200}, assumptions=ASSUME_COMMON)
+                shards=arena_shards(seed, tier, ["contents", "allocator"], 80, 800)
+                + [sh(e, "vecdiff", seed, 700 + i, iters=(300 if tier == "quick" else 3000), ops=150) for i, e in enumerate(("debug", "release"))]
+                + [sh(e, "strdiff", seed, 710 + i, iters=(300 if tier == "quick" else 3000), ops=120) for i, e in enumerate(("debug", "release"))],
+                require={"shadow.blocks_verified": 100000, "c02.closure_logs_checked": 200, "vop.into_bump_slice": 100, "sop.into_bump_str": 20}, assumptions=ASSUME_COMMON)
 
 
 def plan_C03(tier, seed):
